@@ -152,7 +152,7 @@ CHECKS = {
               "{wrong sequence, wrong source (other association / unknown), solicited with UNS, illegal FIR/FIN/CON for the position, IIN2 rejection, unsolicited (null/data), duplicate unsolicited, truncated objects, unknown object} optionally followed by the faithful answer; "
               "distinct = (task kind, fragment class, fragment position, CON) tuples in which the acceptance/confirm/delivery rules were evaluated"),
         runs=[dict(check="c15", scale=10, timeout_s=900)],
-        required=["accepted_confirmed_ok", "rejected_not_confirmed_ok", "completed_with_answer_ok", "not_completed_without_answer_ok", "deliveries_match_ok", "unsolicited_confirmed_ok", "unsolicited_delivery_ok", "unsolicited_duplicates_sent", "startup_unsol_retry_delivered_ok", "startup_unsol_duplicate_null_ok", "long_series_ok"],
+        required=["misflagged_unsolicited_sent", "accepted_confirmed_ok", "rejected_not_confirmed_ok", "completed_with_answer_ok", "not_completed_without_answer_ok", "deliveries_match_ok", "unsolicited_confirmed_ok", "unsolicited_delivery_ok", "unsolicited_duplicates_sent", "startup_unsol_retry_delivered_ok", "startup_unsol_duplicate_null_ok", "long_series_ok"],
         thorough_scale=25.0,
         abnormal_exit_is_violation=True,
         assumptions=HARNESS_TRUST,
@@ -196,7 +196,7 @@ CHECKS = {
         rule=("part A: real master and real outstation joined by a relay with scripted one-way delays f, b (0 .. 90 000 ms), processing delay p (0 .. 65 535 ms, held honestly or not), master clock anywhere in 0 .. 2^48-1, three procedures, crossing unsolicited responses and stale wrong-sequence replies; the time handed to the outstation application is compared with the master's clock at that virtual instant; "
               "part B: real master against a scripted outstation (excess processing delay, unexpected objects at every step, NEED_TIME kept, IIN2 rejection, 48-bit overflow); part C: real outstation against a scripted master (g50v3 = recorded + elapsed exactly, rejected without record or on overflow, g50v1, g52v2)"),
         runs=[dict(check="c18", timeout_s=900)],
-        required=["A_accuracy_within_bound_ok", "A_accuracy_ok_proc0", "A_accuracy_ok_proc1", "A_exact_when_symmetric_ok", "A_accuracy_ok_with_processing_delay", "A_accuracy_ok_delay_beyond_16_bits", "A_failed_as_demanded_ok", "B_failed_as_demanded_ok", "B_success_on_benign_script_ok", "C_recorded_plus_elapsed_ok", "C_write_without_record_rejected_ok", "C_overflow_rejected_ok"],
+        required=["C_sum_exactly_at_48_bit_limit_ok", "C_sub_millisecond_elapsed", "A_accuracy_within_bound_ok", "A_accuracy_ok_proc0", "A_accuracy_ok_proc1", "A_exact_when_symmetric_ok", "A_accuracy_ok_with_processing_delay", "A_accuracy_ok_delay_beyond_16_bits", "A_failed_as_demanded_ok", "B_failed_as_demanded_ok", "B_success_on_benign_script_ok", "C_recorded_plus_elapsed_ok", "C_write_without_record_rejected_ok", "C_overflow_rejected_ok"],
         thorough_scale=10.0,
         abnormal_exit_is_violation=True,
         assumptions=HARNESS_TRUST,
